@@ -6,6 +6,7 @@ import importlib.util
 import inspect
 import math
 import operator
+import os
 import socket
 import sys
 import warnings
@@ -40,10 +41,16 @@ def load(path: Path, *, cache: bool = False) -> Any:
 
 
 def dump(obj: Any, path: Path) -> None:
-    """Dump an object to a path using cloudpickle."""
+    """Dump an object to a path using cloudpickle.
+
+    The data is first written to a temporary file which is then moved into place,
+    such that ``path`` never contains a partially written object.
+    """
     path.parent.mkdir(parents=True, exist_ok=True)
-    with path.open("wb") as f:
+    tmp_path = path.with_name(f"{path.name}.tmp")
+    with tmp_path.open("wb") as f:
         cloudpickle.dump(obj, f)
+    os.replace(tmp_path, path)  # noqa: PTH105
 
 
 def _get_cache_key(path: Path) -> tuple:
